@@ -12,6 +12,7 @@ import (
 	"unicode/utf8"
 
 	"github.com/cloudwego/dynamicgo/conv"
+	dhttp "github.com/cloudwego/dynamicgo/http"
 	"github.com/cloudwego/dynamicgo/conv/j2t"
 	"github.com/cloudwego/dynamicgo/meta"
 	"github.com/cloudwego/dynamicgo/thrift"
@@ -718,7 +719,27 @@ service Svc { Req M(1: Req req), }
 		rest := tref.Encode(body) // includes the STOP
 		want := append([]byte{tref.STRUCT, 0, 255}, bb...)
 		want = append(want, rest...)
-		ctx := context.WithValue(context.Background(), conv.CtxKeyThriftReqBase, b)
+		// the context may carry the other values of the converters as well, attached before or after the base:
+		// each lives under its own key
+		ctx := context.Background()
+		others := []func(){
+			func() { ctx = context.WithValue(ctx, conv.CtxKeyThriftRespBase, base.NewBaseResp()) },
+			func() { ctx = context.WithValue(ctx, conv.CtxKeyHTTPRequest, c12HTTPReq(nil, true)) },
+			func() { ctx = context.WithValue(ctx, conv.CtxKeyHTTPResponse, dhttp.NewHTTPResponse()) },
+		}
+		for _, add := range others {
+			if cs.R.Chance(25) {
+				add()
+				cs.Cover("thrift_base_ctx_other_value_before")
+			}
+		}
+		ctx = context.WithValue(ctx, conv.CtxKeyThriftReqBase, b)
+		for _, add := range others {
+			if cs.R.Chance(25) {
+				add()
+				cs.Cover("thrift_base_ctx_other_value_after")
+			}
+		}
 		cv := j2t.NewBinaryConv(conv.Options{EnableThriftBase: true})
 		cs.Info("doc", doc)
 		cs.Info("base-len", len(bb))
